@@ -203,3 +203,98 @@ def dfxp_clock_frames(hmax=999):
     return result("violated", ctx, counterexample={"begin": text, "read": got, "exact": exact}, reproduced=(got != exact),
                   replay_code=_DFXP_REPLAY.format(begin=text, exact=exact), functions=fns, bounds=bounds,
                   detail=f'TTML begin="{text}" reads as {got} us, exact floor is {exact}')
+
+
+# ---------------------------------------------------------------------------
+# MicroDVD through the public read(): the document is concrete except for one frame number, which the
+# stub of int() turns into a symbolic integer (everything else runs natively or is inlined from the AST)
+# ---------------------------------------------------------------------------
+_PLACE = "7770001"
+
+
+def microdvd_read_public(fps_text="25.0", which="start", nmax=90000000):
+    """MicroDVDReader().read(doc) with one symbolic frame number: start/end == floor(n * 10^6 / fps)"""
+    from pycaption.microdvd import MicroDVDReader
+    import hashlib, inspect
+    src = inspect.getsource(MicroDVDReader)
+    h = hashlib.sha256(src.encode()).hexdigest()[:12]
+    fr = Fr(fps_text)
+    a, b = fr.numerator, fr.denominator
+    head = "" if fps_text == "25.0" else "{0}{0}%s\n" % fps_text
+    n = z3.Int("n")
+
+    def doc_for(num):
+        return head + ("{%s}{99999999}x|y\n" % num if which == "start" else "{1}{%s}x|y\n" % num) + "{99999999}{99999999}tail\n"
+
+    def run(lo, hi):
+        ctx = Ctx()
+
+        def int_stub(ev, args, kws, cons):
+            if len(args) == 1 and args[0] == _PLACE:
+                return [(IntV(n, lo, hi), cons)]
+            return None  # default handling
+        outs = run_function(ctx, MicroDVDReader.read, {"self": MicroDVDReader(), "content": doc_for(_PLACE)}, stubs={int: int_stub})
+        return ctx, outs
+
+    def value_of(o):
+        if o.kind != "return":
+            return None
+        caps = o.value.get_captions("und")
+        if len(caps) != 2:
+            return None
+        v = caps[0].start if which == "start" else caps[0].end
+        return v if isinstance(v, IntV) else None
+
+    # translator validation: concrete documents through the real reader vs the encoding
+    nval = 0
+    for nv in (0, 1, 25, 99, 195, 201, 203, 1001, 89999, 12345678, nmax):
+        ctx2, outs2 = run(nv, nv)
+        got = None
+        for o in outs2:
+            v = value_of(o)
+            if v is None:
+                continue
+            st, mm = ctx2.check([n == nv] + o.cons)
+            if st == "sat":
+                got = fplia.model_int(mm, v.t)
+                break
+        c = MicroDVDReader().read(doc_for(str(nv))).get_captions("und")[0]
+        want = c.start if which == "start" else c.end
+        if got != want:
+            raise AssertionError(f"translator validation failed on frame {nv}: real={want} encoding={got}")
+        nval += 1
+    ctx, outs = run(0, nmax)
+    pre = [n >= 0, n <= nmax]
+
+    def violated(o):
+        v = value_of(o)
+        if v is None:
+            return z3.BoolVal(True)
+        q = v.t
+        return z3.Not(z3.And(q * a <= n * 10**6 * b, (q + 1) * a > n * 10**6 * b))
+    st, m, o, wit = decide(ctx, outs, pre, violated)
+    fns = [f"pycaption.microdvd.MicroDVDReader.read (+ inlined helpers)#{h}", "pycaption.base.Caption.__init__", "CaptionSet"]
+    bounds = (f"public read() of a 2-cue document, {which} frame of cue 1 symbolic in 0..{nmax}, fps={fps_text}; {len(outs)} case paths; "
+              f"validated on {nval} concrete documents")
+    if st == "unsat":
+        return result("holds", ctx, witness=(f"n={fplia.model_int(wit[0], n)}" if wit else None), functions=fns, bounds=bounds)
+    if st == "unknown":
+        return result("inconclusive", ctx, detail="solver unknown", functions=fns, bounds=bounds)
+    if value_of(o) is None:
+        return result("inconclusive", ctx, detail=f"unexpected outcome {o.kind} {getattr(o, 'value', None)!r}", functions=fns, bounds=bounds)
+    nv = fplia.model_int(m, n)
+    exact = (nv * 10**6 * b) // a
+    doc = doc_for(str(nv))
+    c = MicroDVDReader().read(doc).get_captions("und")[0]
+    got = c.start if which == "start" else c.end
+    code = REPLAY_HEAD + f'''from pycaption import MicroDVDReader
+doc = {doc!r}
+c = MicroDVDReader().read(doc).get_captions("und")[0]
+got = c.{which}
+exact = {exact}   # floor({nv} * 10**6 / {fps_text})
+print("document", repr(doc), "read {which} =", got, "exact =", exact)
+sys.exit(1 if got != exact else 0)
+'''
+    return result("violated", ctx, counterexample={"framenum": nv, "fps": fps_text, "read": got, "exact": exact},
+                  reproduced=(got != exact), replay_code=code, functions=fns, bounds=bounds,
+                  detail=f"MicroDVD frame {nv} at {fps_text} fps reads as {got} us, exact floor is {exact}")
